@@ -42,6 +42,9 @@ type config struct {
 	// PreloadOther: the earlier load is of ANOTHER policy (a third probe syscall) and may itself use thread-sync
 	// (PreloadFlags as given); what the recorded load does to the other threads must depend on its own flags only
 	PreloadOther bool `json:"preload_other"`
+	// Uname26: the process runs with the UNAME26 personality (setarch --uname-2.6; inherited over fork and exec), under which
+	// uname(2) reports release 2.6.x on any kernel. What the kernel does with the flags does not depend on what it reports.
+	Uname26 bool `json:"uname26"`
 }
 
 type probeRec struct {
@@ -104,6 +107,12 @@ func main() {
 	}
 	if cfg.After == 0 {
 		cfg.After = 3
+	}
+	if cfg.Uname26 {
+		if _, _, e := syscall.RawSyscall(syscall.SYS_PERSONALITY, 0x0020000, 0, 0); e != 0 {
+			fmt.Fprintln(os.Stderr, "personality:", e)
+			os.Exit(3)
+		}
 	}
 	var mu sync.Mutex
 	var logs []*threadLog
